@@ -29,6 +29,9 @@ import Alpaqa.Props.C03_Ocp
 import Alpaqa.Props.C06_Ocp
 import Alpaqa.Proofs.C06Spec
 import Alpaqa.Proofs.C08Scalar
+import Alpaqa.Proofs.OcpDoc
+import Alpaqa.Proofs.OcpSized
+import Alpaqa.Proofs.OcpWrite
 import Mathlib.Analysis.Real.Sqrt
 
 namespace Alpaqa.Props.C13
@@ -134,209 +137,13 @@ where
           exact iterBody_status O dir P pr stop _ es.1 (by rw [hh]; exact h)
         · exact ih _ (iterBody_status O dir P pr stop _ es.1 (by rw [hh]; exact h)) hx
 
-/-- The six supported criteria as functions of the final iterate `(γ, u, ∇ψ)`: with
-    `(û, p, pᵀp, ·) = eval_prox_impl(γ, u, ∇ψ)` and `(·, p₁, p₁ᵀp₁, ·) = eval_prox_impl(1, u, ∇ψ)`. -/
-theorem crit_formulas (P : Prob α) (pr : Params α) (it : Iterate α) (h : ProxCons P it) :
-    (pr.stopCrit = .ProjGradNorm → epsOf P pr it = some (normInf (evalProxImpl P it.gamma it.u it.gradPsi).2.1)) ∧
-    (pr.stopCrit = .ProjGradNorm2 →
-      epsOf P pr it = some (RealLike.sqrt (evalProxImpl P it.gamma it.u it.gradPsi).2.2.1)) ∧
-    (pr.stopCrit = .ProjGradUnitNorm →
-      epsOf P pr it = some (normInf (evalProxImpl P 1 it.u it.gradPsi).2.1)) ∧
-    (pr.stopCrit = .ProjGradUnitNorm2 →
-      epsOf P pr it = some (RealLike.sqrt (evalProxImpl P 1 it.u it.gradPsi).2.2.1)) ∧
-    (pr.stopCrit = .FPRNorm →
-      epsOf P pr it = some (normInf (evalProxImpl P it.gamma it.u it.gradPsi).2.1 / it.gamma)) ∧
-    (pr.stopCrit = .FPRNorm2 →
-      epsOf P pr it = some (RealLike.sqrt (evalProxImpl P it.gamma it.u it.gradPsi).2.2.1 / it.gamma)) := by
-  have hp : it.p = (evalProxImpl P it.gamma it.u it.gradPsi).2.1 := congrArg (fun t => t.2.1) h
-  have hpp : it.pTp = (evalProxImpl P it.gamma it.u it.gradPsi).2.2.1 := congrArg (fun t => t.2.2.1) h
-  refine ⟨?_, ?_, ?_, ?_, ?_, ?_⟩ <;> intro hc <;> unfold epsOf <;> rw [hc] <;>
-    simp only [calcErrorStopCritOcp, stopCritOcp_ProjGradNorm, stopCritOcp_ProjGradNorm2,
-      stopCritOcp_ProjGradUnitNorm, stopCritOcp_ProjGradUnitNorm2, stopCritOcp_FPRNorm,
-      stopCritOcp_FPRNorm2, hp, hpp]
-
 end structural
 
 /-! ### Real-number reading (every linearly ordered field) -/
 section field
 variable {α : Type} [Field α] [LinearOrder α] [IsStrictOrderedRing α] [RealLike α]
 
-/-- `Π_[lb,ub](u − γ g)`, componentwise. -/
-def projGradV (γ : α) : Vec α → Vec α → Vec α → Vec α → Vec α
-  | x :: xs, g :: gs, l :: ls, h :: hs => min (max (x - γ * g) l) h :: projGradV γ xs gs ls hs
-  | _, _, _, _ => []
-
-/-- `u + p` is the Euclidean projection of the gradient step onto the box: `p = Π_U(u − γ∇ψ) − u`. -/
-theorem projStepV_eq_proj (hnn : ∀ x : α, RealLike.isNaN x = false) (γ : α) (u g lb ub : Vec α) :
-    vadd u (projStepV γ u g lb ub) = projGradV γ u g lb ub := by
-  induction u generalizing g lb ub with
-  | nil => simp [vadd, vzip, projGradV]
-  | cons x xs ih =>
-    cases g with
-    | nil => simp [projStepV, vadd, vzip, projGradV]
-    | cons gi gs =>
-      cases lb with
-      | nil => simp [projStepV, vadd, vzip, projGradV]
-      | cons l ls =>
-        cases ub with
-        | nil => simp [projStepV, vadd, vzip, projGradV]
-        | cons hh hs =>
-          have h1 := C03_Ocp.projStep1_eq_proj hnn γ gi x l hh
-          have h2 := ih gs ls hs
-          simp only [projStepV, vadd, vzip, List.zipWith_cons_cons, projGradV] at h2 ⊢
-          rw [h1, h2]
-
-/-! #### The documented stationarity measures
-
-`docRes γ u g = u − Π_U(u − γ g)` is the residual vector of the doc comments of `PANOCStopCrit`
-(`x − Π_C(x − γ∇ψ(x))`); `maxAbs` is `‖·‖∞`; the 2-norm criteria use `√(stageSumSq …)`, the square root of the
-sum of squares accumulated stage by stage (`eval_prox_impl`), which is `√(Σ vᵢ²)` for a vector of `N·nu`
-entries (`stageSumSq_eq_sumSq`). -/
 open C06Spec
-
-/-- `x − Π_U(x − γ g)` -/
-def docRes (γ : α) (u g lb ub : Vec α) : Vec α := vsub u (projGradV γ u g lb ub)
-
-/-- `‖v‖²` accumulated stage by stage, as `eval_prox_impl` does -/
-def stageSumSq (P : Prob α) (v : Vec α) : α :=
-  (stages P.N P.nu v).foldl (fun acc pt => acc + sqNorm pt) 0
-
-theorem docRes_abs (hnn : ∀ x : α, RealLike.isNaN x = false) (γ : α) (u g lb ub : Vec α) :
-    (docRes γ u g lb ub).map (fun a => |a|) = (projStepV γ u g lb ub).map (fun a => |a|) := by
-  unfold docRes vsub vzip
-  induction u generalizing g lb ub with
-  | nil => simp [projStepV, projGradV]
-  | cons x xs ih =>
-    cases g with
-    | nil => simp [projStepV, projGradV]
-    | cons gi gs =>
-      cases lb with
-      | nil => simp [projStepV, projGradV]
-      | cons l ls =>
-        cases ub with
-        | nil => simp [projStepV, projGradV]
-        | cons hh hs =>
-          simp only [projStepV, projGradV, List.zipWith_cons_cons, List.map_cons, List.cons.injEq]
-          refine ⟨?_, ih gs ls hs⟩
-          rw [← C03_Ocp.projStep1_eq_proj hnn γ gi x l hh, ← abs_neg]
-          congr 1; ring
-
-theorem foldl_sqNorm_eq (l : List (Vec α)) (a : α) :
-    l.foldl (fun acc pt => acc + sqNorm pt) a = a + (l.map sqNorm).sum := by
-  induction l generalizing a with
-  | nil => simp
-  | cons x xs ih => simp [ih, add_assoc]
-
-theorem stageSumSq_eq_sum (P : Prob α) (v : Vec α) :
-    stageSumSq P v = ((stages P.N P.nu v).map sqNorm).sum := by
-  unfold stageSumSq; rw [foldl_sqNorm_eq, zero_add]
-
-theorem stageSumSq_congr_abs (P : Prob α) (v w : Vec α)
-    (h : v.map (fun a => |a|) = w.map (fun a => |a|)) : stageSumSq P v = stageSumSq P w := by
-  rw [stageSumSq_eq_sum, stageSumSq_eq_sum]
-  unfold stages
-  rw [List.map_map, List.map_map]
-  congr 1
-  apply List.map_congr_left
-  intro t _
-  simp only [Function.comp]
-  rw [sqNorm_eq_sumSq, sqNorm_eq_sumSq]
-  apply sumSq_congr_abs
-  rw [List.map_take, List.map_drop, List.map_take, List.map_drop, h]
-
-theorem sumSq_append (a b : List α) : sumSq (a ++ b) = sumSq a + sumSq b := by
-  unfold sumSq; simp
-
-/-- for a vector with exactly `N·nu` entries the stage-wise accumulation is the plain sum of squares -/
-theorem stageSumSq_eq_sumSq (P : Prob α) (v : Vec α) (h : v.length = P.N * P.nu) :
-    stageSumSq P v = sumSq v := by
-  rw [stageSumSq_eq_sum]
-  unfold stages
-  have key : ∀ (n : Nat) (w : Vec α), w.length = n * P.nu →
-      (((List.range n).map fun t => (w.drop (t * P.nu)).take P.nu).map sqNorm).sum = sumSq w := by
-    intro n
-    induction n with
-    | zero =>
-      intro w hw
-      have : w = [] := List.eq_nil_of_length_eq_zero (by simpa using hw)
-      subst this; simp [sumSq]
-    | succ n ih =>
-      intro w hw
-      rw [List.range_succ_eq_map, List.map_cons, List.map_cons, List.sum_cons, List.map_map, List.map_map]
-      have hmul : (n + 1) * P.nu = n * P.nu + P.nu := Nat.succ_mul n P.nu
-      have hw' : (w.drop P.nu).length = n * P.nu := by
-        rw [List.length_drop, hw]; omega
-      have := ih (w.drop P.nu) hw'
-      have e : ((List.range n).map ((sqNorm ∘ fun t => (w.drop (t * P.nu)).take P.nu) ∘ Nat.succ))
-          = ((List.range n).map fun t => ((w.drop P.nu).drop (t * P.nu)).take P.nu).map sqNorm := by
-        rw [List.map_map]
-        apply List.map_congr_left
-        intro t _
-        simp only [Function.comp, List.drop_drop]
-        have : (t + 1) * P.nu = P.nu + t * P.nu := by rw [Nat.succ_mul]; omega
-        rw [this]
-      rw [e, this]
-      simp only [Nat.zero_mul, List.drop_zero]
-      rw [sqNorm_eq_sumSq, ← sumSq_append, List.take_append_drop]
-  exact key P.N v h
-
-/-- **The documented stationarity measure of criterion `c` at the point `u`** (step size `γ`, gradient
-    `g`, input box `U` repeated over the stages) **is within `tol`.**  The four criteria PANOC-OCP does not
-    implement give `False`. -/
-def CritWithin (P : Prob α) (c : PANOCStopCrit) (γ : α) (u g : Vec α) (tol : α) : Prop :=
-  match c with
-  | .ProjGradNorm => maxAbs (docRes γ u g (tile P.N P.Ulb) (tile P.N P.Uub)) ≤ tol
-  | .ProjGradNorm2 =>
-    RealLike.sqrt (stageSumSq P (docRes γ u g (tile P.N P.Ulb) (tile P.N P.Uub))) ≤ tol
-  | .ProjGradUnitNorm => maxAbs (docRes 1 u g (tile P.N P.Ulb) (tile P.N P.Uub)) ≤ tol
-  | .ProjGradUnitNorm2 =>
-    RealLike.sqrt (stageSumSq P (docRes 1 u g (tile P.N P.Ulb) (tile P.N P.Uub))) ≤ tol
-  | .FPRNorm => γ⁻¹ * maxAbs (docRes γ u g (tile P.N P.Ulb) (tile P.N P.Uub)) ≤ tol
-  | .FPRNorm2 =>
-    γ⁻¹ * RealLike.sqrt (stageSumSq P (docRes γ u g (tile P.N P.Ulb) (tile P.N P.Uub))) ≤ tol
-  | _ => False
-
-/-- the generated criterion of a consistent iterate is the documented measure -/
-theorem epsOf_eq_doc (hnn : ∀ x : α, RealLike.isNaN x = false) (P : Prob α) (pr : Params α)
-    (it : Iterate α) (h : ProxCons P it) (e : α) (he : epsOf P pr it = some e) (tol : α) (hle : e ≤ tol) :
-    CritWithin P pr.stopCrit it.gamma it.u it.gradPsi tol := by
-  have hcf := crit_formulas P pr it h
-  have hp : ∀ γ : α, (evalProxImpl P γ it.u it.gradPsi).2.1 =
-      projStepV γ it.u it.gradPsi (tile P.N P.Ulb) (tile P.N P.Uub) := fun _ => rfl
-  have hq : ∀ γ : α, (evalProxImpl P γ it.u it.gradPsi).2.2.1 =
-      stageSumSq P (projStepV γ it.u it.gradPsi (tile P.N P.Ulb) (tile P.N P.Uub)) := fun _ => rfl
-  have hinf : ∀ γ : α, normInf (projStepV γ it.u it.gradPsi (tile P.N P.Ulb) (tile P.N P.Uub)) =
-      maxAbs (docRes γ it.u it.gradPsi (tile P.N P.Ulb) (tile P.N P.Uub)) := by
-    intro γ
-    rw [normInf_eq_maxAbs]
-    exact (maxAbs_congr_abs _ _ (docRes_abs hnn γ _ _ _ _)).symm
-  have hsq : ∀ γ : α, stageSumSq P (projStepV γ it.u it.gradPsi (tile P.N P.Ulb) (tile P.N P.Uub)) =
-      stageSumSq P (docRes γ it.u it.gradPsi (tile P.N P.Ulb) (tile P.N P.Uub)) := fun γ =>
-    (stageSumSq_congr_abs P _ _ (docRes_abs hnn γ _ _ _ _)).symm
-  unfold CritWithin
-  cases hc : pr.stopCrit
-  all_goals first
-    | (have hn : epsOf P pr it = none := by unfold epsOf; rw [hc]; rfl
-       rw [hn] at he; exact absurd he (by simp))
-    | skip
-  · have := hcf.1 hc
-    rw [he, hp, hinf] at this
-    simp only [] ; rw [← Option.some.inj this]; exact hle
-  · have := hcf.2.1 hc
-    rw [he, hq, hsq] at this
-    simp only []; rw [← Option.some.inj this]; exact hle
-  · have := hcf.2.2.1 hc
-    rw [he, hp, hinf] at this
-    simp only []; rw [← Option.some.inj this]; exact hle
-  · have := hcf.2.2.2.1 hc
-    rw [he, hq, hsq] at this
-    simp only []; rw [← Option.some.inj this]; exact hle
-  · have := hcf.2.2.2.2.1 hc
-    rw [he, hp, hinf] at this
-    simp only []; rw [inv_mul_eq_div, ← Option.some.inj this]; exact hle
-  · have := hcf.2.2.2.2.2 hc
-    rw [he, hq, hsq] at this
-    simp only []; rw [inv_mul_eq_div, ← Option.some.inj this]; exact hle
 
 /-- **`Converged` certifies, real-number reading — all six criteria PANOC-OCP supports.**
     Over a linearly ordered field (no NaN), for a non-empty input box, under the explicit fuel bound
@@ -376,30 +183,6 @@ theorem ocp_converged_certifies_real {D : Type} (hnn : ∀ x : α, RealLike.isNa
   rw [h1, ← projStepV_eq_proj hnn]
   rfl
 
-/-- The 2-norm criteria in sum-of-squares form: `√S ≤ tol` for a lawful square root and `S ≥ 0` means
-    `S ≤ tol²` (and `tol ≥ 0`). -/
-theorem sqrt_le_iff_sq (hs : Alpaqa.C08.LawfulSqrt α) (S tol : α) (hS : 0 ≤ S)
-    (h : RealLike.sqrt S ≤ tol) : 0 ≤ tol ∧ S ≤ tol ^ 2 := by
-  have h0 := hs.sqrt_nonneg S hS
-  have h1 := hs.sqrt_mul_self S hS
-  refine ⟨le_trans h0 h, ?_⟩
-  rw [← h1]
-  nlinarith
-
-theorem stageSumSq_nonneg (P : Prob α) (v : Vec α) : 0 ≤ stageSumSq P v := by
-  unfold stageSumSq
-  have e2 : ∀ (l : List (Vec α)) (a : α), 0 ≤ a → 0 ≤ l.foldl (fun acc pt => acc + sqNorm pt) a := by
-    intro l
-    induction l with
-    | nil => intro a ha; simpa using ha
-    | cons x xs ih =>
-      intro a ha
-      simp only [List.foldl_cons]
-      apply ih
-      rw [sqNorm_eq_sumSq]
-      exact add_nonneg ha (sumSq_nonneg x)
-  exact e2 _ 0 (le_refl _)
-
 /-- **The 2-norm criteria in sum-of-squares form** (lawful square root): `CritWithin` for `ProjGradNorm2`
     / `ProjGradUnitNorm2` means `tol ≥ 0` and `Σ_stages ‖rₜ‖² ≤ tol²` for the residual `r = u − Π_U(u − γ∇ψ)`
     (`γ = 1` for the unit variant); for `FPRNorm2` with `γ > 0`: `Σ ‖rₜ‖² ≤ (γ·tol)²`.  With
@@ -422,6 +205,77 @@ theorem critWithin_two_norm (hs : Alpaqa.C08.LawfulSqrt α) (P : Prob α) (γ : 
   by_contra hneg
   have : γ * tol < 0 := mul_neg_of_pos_of_neg hγ (not_le.mp hneg)
   linarith [this, ‹0 ≤ γ * tol ∧ _›.1]
+
+/-! #### Sizes: the 2-norm is `√(Σᵢ rᵢ²)`, the multipliers / errors on the flat vectors -/
+
+/-- **Under the size contract of the oracles the certified iterate is full-sized and the stage-accumulated
+    sum of squares of the criterion is the plain sum of squares of the residual**: with `SizeContract`
+    (`Proofs/OcpSized`: gradient / direction oracles return `N·nu` entries, `nu` bounds per stage — what the
+    C++ asserts) and an initial guess of `N·nu` entries, the iterate `it` of the final callback of every
+    solve that returned from a loop head has `u`, `∇ψ`, `p`, `û` of `N·nu` entries, and for every `γ'`
+    (`γ' = it.γ` and `γ' = 1` are the ones the criteria use)
+    `stageSumSq P (docRes γ' it.u it.∇ψ) = Σᵢ (docRes γ' it.u it.∇ψ)ᵢ²`. -/
+theorem ocp_final_sized {D : Type} (hnn : ∀ x : α, RealLike.isNaN x = false)
+    (O : Oracles α) (dir : Dir D α) (P : Prob α) (d0 : D) (pr : Params α)
+    (hc : SizeContract O dir P) (stop : Nat → Bool) (oot : Bool) (u0 y mu errz0 gV gQ : Vec α) (gS e0 : α)
+    (hu0 : u0.length = P.N * P.nu) (nL nτ : Nat) (hp : FuelOK pr nL nτ) (cb : Callback α)
+    (hcb : (run O dir P d0 pr stop oot u0 y mu errz0 gV gQ gS e0).callbacks.getLast? = some cb) :
+    ItSized P cb.it ∧
+    ∀ γ' : α, stageSumSq P (docRes γ' cb.it.u cb.it.gradPsi (tile P.N P.Ulb) (tile P.N P.Uub)) =
+      sumSq (docRes γ' cb.it.u cb.it.gradPsi (tile P.N P.Ulb) (tile P.N P.Uub)) := by
+  have hmem : cb ∈ (run O dir P d0 pr stop oot u0 y mu errz0 gV gQ gS e0).callbacks :=
+    List.mem_of_getLast? hcb
+  have hs := (run_callbacks_sized O dir P d0 pr hc nL nτ hp stop oot u0 y mu errz0 gV gQ gS e0 hu0 cb hmem).2
+  refine ⟨hs, fun γ' => stageSumSq_eq_sumSq P _ ?_⟩
+  have hl : (tile P.N P.Ulb).length = P.N * P.nu := by unfold tile; rw [tile_length, hc.ulb]
+  have hh : (tile P.N P.Uub).length = P.N * P.nu := by unfold tile; rw [tile_length, hc.uub]
+  have := congrArg List.length (docRes_abs hnn γ' cb.it.u cb.it.gradPsi (tile P.N P.Ulb) (tile P.N P.Uub))
+  rw [List.length_map, List.length_map] at this
+  rw [this]
+  exact projStepV_length _ _ _ _ _ _ hs.u hs.g hl hh
+
+/-- **The returned multipliers and constraint errors, on the flat vectors handed back** ("satisfy the same
+    relations as for the general solvers"): whenever results are written, under the size relations the C++
+    asserts (`WriteSized`: `|y| = |μ| = N·nc + nc_N`, `|D| = nc`, `|D_N| = nc_N`, `nc` / `nc_N` constraint
+    values stored per stage by the forward roll-out *of the returned inputs*) and nonzero penalties, the
+    returned `y`, `err_z` have `N·nc + nc_N` entries (no truncation) and, entry by entry (`i = nc·t + j`),
+    `err_z[i] = c_t[j] − Π_D(c_t[j] + y_in[i]/μ[i])`, `y_out[i] = y_in[i] + μ[i]·err_z[i]`,
+    with `c_t` the constraint values of the independent roll-out `forward(u_out)`. -/
+theorem ocp_y_errz_flat {D : Type} (O : Oracles α) (dir : Dir D α) (P : Prob α) (d0 : D) (pr : Params α)
+    (stop : Nat → Bool) (oot : Bool) (u0 y mu errz0 gV gQ : Vec α) (gS e0 : α)
+    (nL nτ : Nat) (hp : FuelOK pr nL nτ)
+    (hw : (run O dir P d0 pr stop oot u0 y mu errz0 gV gQ gS e0).wrote = true)
+    (hs : WriteSized P (O.fwd (run O dir P d0 pr stop oot u0 y mu errz0 gV gQ gS e0).u).2 y mu)
+    (hm : ∀ x ∈ mu, x ≠ 0) :
+    (run O dir P d0 pr stop oot u0 y mu errz0 gV gQ gS e0).y.length = P.nc * P.N + P.ncN ∧
+    (run O dir P d0 pr stop oot u0 y mu errz0 gV gQ gS e0).errz.length = P.nc * P.N + P.ncN ∧
+    (∀ t < P.N, ∀ j < P.nc,
+      (run O dir P d0 pr stop oot u0 y mu errz0 gV gQ gS e0).errz.getD (P.nc * t + j) 0 =
+        specE ((P.ck (O.fwd (run O dir P d0 pr stop oot u0 y mu errz0 gV gQ gS e0).u).2 t).getD j 0)
+          (y.getD (P.nc * t + j) 0) (mu.getD (P.nc * t + j) 0) (P.Dlb.getD j 0) (P.Dub.getD j 0) ∧
+      (run O dir P d0 pr stop oot u0 y mu errz0 gV gQ gS e0).y.getD (P.nc * t + j) 0 =
+        y.getD (P.nc * t + j) 0 + mu.getD (P.nc * t + j) 0 *
+          (run O dir P d0 pr stop oot u0 y mu errz0 gV gQ gS e0).errz.getD (P.nc * t + j) 0) ∧
+    (∀ j < P.ncN,
+      (run O dir P d0 pr stop oot u0 y mu errz0 gV gQ gS e0).errz.getD (P.nc * P.N + j) 0 =
+        specE ((P.ck (O.fwd (run O dir P d0 pr stop oot u0 y mu errz0 gV gQ gS e0).u).2 P.N).getD j 0)
+          (y.getD (P.nc * P.N + j) 0) (mu.getD (P.nc * P.N + j) 0) (P.DNlb.getD j 0) (P.DNub.getD j 0) ∧
+      (run O dir P d0 pr stop oot u0 y mu errz0 gV gQ gS e0).y.getD (P.nc * P.N + j) 0 =
+        y.getD (P.nc * P.N + j) 0 + mu.getD (P.nc * P.N + j) 0 *
+          (run O dir P d0 pr stop oot u0 y mu errz0 gV gQ gS e0).errz.getD (P.nc * P.N + j) 0) := by
+  have h := ((C03_Ocp.ocp_exit_contract_fuelOK O dir P d0 pr stop oot u0 y mu errz0 gV gQ gS e0 nL nτ hp).1 hw).2
+  have hf := writeSolution_flat P (run O dir P d0 pr stop oot u0 y mu errz0 gV gQ gS e0).u
+    (O.fwd (run O dir P d0 pr stop oot u0 y mu errz0 gV gQ gS e0).u).2 y mu errz0 hs hm
+  have hy : (run O dir P d0 pr stop oot u0 y mu errz0 gV gQ gS e0).y =
+      (writeSolution P (run O dir P d0 pr stop oot u0 y mu errz0 gV gQ gS e0).u
+        (O.fwd (run O dir P d0 pr stop oot u0 y mu errz0 gV gQ gS e0).u).2 y mu errz0).2.1 :=
+    congrArg (fun t => t.2.1) h
+  have he : (run O dir P d0 pr stop oot u0 y mu errz0 gV gQ gS e0).errz =
+      (writeSolution P (run O dir P d0 pr stop oot u0 y mu errz0 gV gQ gS e0).u
+        (O.fwd (run O dir P d0 pr stop oot u0 y mu errz0 gV gQ gS e0).u).2 y mu errz0).2.2 :=
+    congrArg (fun t => t.2.2) h
+  rw [hy, he]
+  exact hf
 
 /-! #### One-sided / unbounded input boxes (`Props/C03_Ocp`: `BndSpec`, `FarAt`, `IsClampO`) -/
 
@@ -545,6 +399,36 @@ example (c : PANOCStopCrit)
 example : ∃ it : Iterate ℚ, Certificate OB PB prB yB muB [0, 0] (rB none) it :=
   ocp_converged_certifies OB (dirOf 1 4) PB () prB (stopAt none) false [1, 1/2] yB muB [0, 0] [] [] 0 0
     (by constructor <;> decide) (by decide +kernel) (by decide +kernel)
+
+/-- the size contract holds for the example oracles (`N·nu = 2`) -/
+theorem sizeContract_A : SizeContract OA (dirOf 1 3) PA :=
+  ⟨rfl, rfl, fun _ _ _ => rfl, fun _ _ _ _ _ => rfl,
+    fun _ q _ _ hq => by show (smul _ q).length = _; rw [smul_length]; exact hq⟩
+
+/-- `ocp_final_sized` instantiated on the `ProjGradNorm2` run: the certified iterate is full-sized and the
+    criterion's `pᵀp` is `Σᵢ rᵢ²` -/
+example (cb : Callback ℚ) (hcb : (rC .ProjGradNorm2 none).callbacks.getLast? = some cb) :
+    ItSized PA cb.it :=
+  (ocp_final_sized (fun _ => rfl) OA (dirOf 1 3) PA () (prC .ProjGradNorm2) sizeContract_A (stopAt none) false
+    [1, 1/2] [] [] [] [] [] 0 0 rfl 23 9 (fuelOK_prC _) cb hcb).1
+example : ((rC .ProjGradNorm2 none).callbacks.getLast?).map (fun cb => cb.it.u.length) = some 2 := by
+  decide +kernel
+
+/-- `ocp_y_errz_flat` instantiated on the run with a stage constraint (`rB`): `WriteSized` holds
+    (`|y| = |μ| = 2 = N·nc`, one stored constraint value per stage), the penalties are nonzero -/
+example : (rB none).y.length = 2 ∧ (rB none).errz.length = 2 ∧
+    (rB none).errz.getD 0 0 = specE ((PB.ck (OB.fwd (rB none).u).2 0).getD 0 0) (yB.getD 0 0) (muB.getD 0 0)
+      (PB.Dlb.getD 0 0) (PB.Dub.getD 0 0) ∧
+    (rB none).y.getD 1 0 = yB.getD 1 0 + muB.getD 1 0 * (rB none).errz.getD 1 0 := by
+  have h := ocp_y_errz_flat OB (dirOf 1 4) PB () prB (stopAt none) false [1, 1/2] yB muB [0, 0] [] [] 0 0
+    23 9 C03_Ocp.fuelOK_prB (by decide +kernel)
+    { y := rfl, mu := rfl, dlb := rfl, dub := rfl, dnlb := rfl, dnub := rfl,
+      ck := fun t ht => by
+        have : t = 0 ∨ t = 1 := by have : t < 2 := ht; omega
+        rcases this with rfl | rfl <;> decide +kernel,
+      ckN := by decide +kernel, some := rfl }
+    (by intro x hx; simp [muB] at hx; subst hx; norm_num)
+  exact ⟨h.1, h.2.1, (h.2.2.1 0 (by decide) 0 (by decide)).1, (h.2.2.1 1 (by decide) 0 (by decide)).2⟩
 
 /-- a one-sided input box `U = [-1, +∞)`, represented with the stand-in `1000` for `+∞`: the run is the same
     as with `[-1, 1]` as long as the stand-in is far enough for every step taken; at the certified iterate
